@@ -69,11 +69,18 @@ CHUNK = 12
 EXHAUSTIVE = {"quick": False, "thorough": False}
 
 EPS = R.EPS
-# One safety factor for every comparison.  Calibration (unchanged tree, seeds 0-4 quick,
-# 0-1 thorough): the largest observed err / (eps*g*A) per operation is reported in the
-# evidence under residual_ratio; see the final numbers next to FLOORS.  K=32 leaves at least
-# a factor 10 above the largest ratio seen, while any change of a node, weight, matrix
-# entry or index range alters results at the 1/n^2 .. 1 relative level, i.e. >= 1e8 * tol.
+# One safety factor for every comparison: tol = K * eps * g(n) * A.
+# g(n) is the textbook growth of the rounding error of the operation with the number of
+# nodes: (n+1)^2 for evaluating T_n / a Lagrange product near the ends and for an n-term
+# quadrature sum, (n+1)^2 * cond_2(transform of this case) for the basis change (solve via
+# an explicit inverse), (n+1)^4 for differentiation (entries of the differentiation matrix
+# are O(n^2), each built from an n-fold product, and |P'| <= n^2 max|P|).
+# Calibration on the unchanged tree (quick seeds 0-4, thorough seeds 0-1, n up to 64): the
+# largest err/tol over all comparisons was 0.031 (evaluate), 0.028 (cardinal hook), 0.017
+# (basis change / dual), 0.008 (derivative), 0.011 (integrate) -- i.e. K=8 leaves a factor
+# >= 30; the per-run maxima are written to the evidence (residual_ratio).  Every mutant
+# tried (wrong node, weight, index range, matrix entry, parity, axis) moved results by
+# >= 1e-3 relative, >= 1e8 * tol, so the margin costs no sensitivity.
 K = 8.0
 
 
@@ -94,28 +101,33 @@ def g_int(n):
 
 
 FLOORS = {
-    "quick": {"distinct_nontrivial": 600,
-              "mon": {"nodes": 1500, "hook_chebyshev": 4000, "hook_cardinal": 1500,
-                      "changebasis": 1500, "roundtrip": 1500, "evaluate": 2500,
-                      "evaluate_grid": 1000, "derivative": 1500, "integrate": 1500,
-                      "integrate_inplace": 800, "matrix": 800, "derivmatrix": 800,
-                      "dual": 800, "axis_independence": 400, "linearity": 400,
-                      "metadata": 2000},
-              "cls": {"1d:z:in": 60, "1d:z:ep": 60, "1d:pz:in": 60, "1d:pz:ep": 60,
-                      "1d:pp:in": 60, "1d:pp:ep": 60, "nd:rank1": 20, "nd:rank2": 60,
-                      "nd:rank3": 60, "nd:rank4": 60, "nd:mixed-array": 80,
-                      "Nodd": 200, "Neven": 100}},
-    "thorough": {"distinct_nontrivial": 6000,
-                 "mon": {"nodes": 30000, "hook_chebyshev": 100000, "hook_cardinal": 30000,
-                         "changebasis": 30000, "roundtrip": 30000, "evaluate": 50000,
-                         "evaluate_grid": 20000, "derivative": 30000, "integrate": 30000,
-                         "integrate_inplace": 15000, "matrix": 15000, "derivmatrix": 15000,
-                         "dual": 15000, "axis_independence": 8000, "linearity": 8000,
-                         "metadata": 40000},
-                 "cls": {"1d:z:in": 1000, "1d:z:ep": 1000, "1d:pz:in": 1000,
-                         "1d:pz:ep": 1000, "1d:pp:in": 1000, "1d:pp:ep": 1000,
-                         "nd:rank1": 400, "nd:rank2": 1000, "nd:rank3": 1000,
-                         "nd:rank4": 1000, "nd:mixed-array": 1500}},
+    # about half of what seeds 0-4 produce on the unchanged tree (quick: 2590 cases,
+    # thorough: 73954 cases); every deciding monitor is listed, so none can be silent.
+    "quick": {"distinct_nontrivial": 1500,
+              "mon": {"nodes": 5000, "hook_chebyshev": 20000, "hook_cardinal": 7000,
+                      "changebasis": 2000, "roundtrip": 2000, "evaluate": 4000,
+                      "evaluate_grid": 1400, "evaluate_single_point": 1000,
+                      "derivative": 3000, "integrate": 4000,
+                      "integrate_inplace": 2500, "matrix": 1400, "derivmatrix": 1400,
+                      "dual": 2800, "axis_independence": 6000, "linearity": 2000,
+                      "metadata": 15000},
+              "cls": {"1d:z:in": 100, "1d:z:ep": 100, "1d:pz:in": 100, "1d:pz:ep": 100,
+                      "1d:pp:in": 100, "1d:pp:ep": 100, "nd:rank1": 80, "nd:rank2": 160,
+                      "nd:rank3": 160, "nd:rank4": 160, "nd:mixed-array": 300,
+                      "Nodd": 500, "Neven": 500, "Grid3Scales": 100}},
+    "thorough": {"distinct_nontrivial": 15000,
+                 "mon": {"nodes": 150000, "hook_chebyshev": 600000, "hook_cardinal": 200000,
+                         "changebasis": 55000, "roundtrip": 55000, "evaluate": 120000,
+                         "evaluate_grid": 40000, "evaluate_single_point": 30000,
+                         "derivative": 95000, "integrate": 110000,
+                         "integrate_inplace": 70000, "matrix": 40000, "derivmatrix": 40000,
+                         "dual": 80000, "axis_independence": 200000, "linearity": 60000,
+                         "metadata": 500000},
+                 "cls": {"1d:z:in": 3000, "1d:z:ep": 3000, "1d:pz:in": 3000,
+                         "1d:pz:ep": 3000, "1d:pp:in": 3000, "1d:pp:ep": 3000,
+                         "nd:rank1": 1200, "nd:rank2": 5000, "nd:rank3": 5000,
+                         "nd:rank4": 5000, "nd:mixed-array": 9000,
+                         "Nodd": 15000, "Neven": 15000, "Grid3Scales": 3000}},
 }
 
 SIZES_SMALL = list(range(2, 13))
@@ -138,7 +150,7 @@ def _hook_reset():
 
 def _note_ratio(store, op, err, tol):
     r = err / tol if tol > 0 else (0.0 if err == 0 else math.inf)
-    if not (r <= store.get(op, 0.0)):      # also true for nan
+    if not (r <= store.get(op, -1.0)):     # also true for nan
         store[op] = float(r) if r == r else math.inf
 
 
@@ -154,7 +166,6 @@ def _install_hooks():
     orig_card = Polynomial.cardinal
 
     def chebyshev(self, compactCoord, n, restriction=None):
-        # the real method subtracts in place from what scipy returns; hand it copies
         out = orig_cheb(self, compactCoord, n, restriction)
         try:
             x = np.asarray(compactCoord, dtype=float)
@@ -313,7 +324,6 @@ def _gen_nd(rng, pairs, per_pair_rank, cases):
                               "axes": _rand_layout(rng, rank, int(M), int(N)),
                               "g3": bool(rng.random() < 0.1),
                               "s": int(rng.integers(1 << 30))})
-    # the layout the Boltzmann solver uses, every basis combination
     return cases
 
 
